@@ -81,3 +81,61 @@ Section MainLoop.
 End MainLoop.
 Print Assumptions main_loop_is_for_loop.
 Print Assumptions each_visit_runs_statements_in_order.
+
+(** * the expression grammar: one rule per level, binary operators group left to right *)
+From WalModel Require Import WawkParse.
+From WalModel.proofs Require Import WawkParseProofs.
+
+(** every expression tree — numbers, symbols, strings, calls, !, the twelve binary operators, nested to any depth —
+    written as tokens with parentheses only around a sub-expression of a lower level than its position requires
+    (the right operand of a left-associative operator requires the next level, both operands of a comparison require
+    the level of + and -), is parsed back to exactly that tree *)
+Theorem expression_tokens_parse_back_to_the_tree : forall e, parse_tokens (fl 1 e) = Some e.
+Proof. exact tokens_parse_back. Qed.
+Print Assumptions expression_tokens_parse_back_to_the_tree.
+
+Theorem the_levels_are : forall o,
+  lvl_op o = match o with
+             | BOr => 1 | BAnd => 2 | BEq | BNe | BGt | BLt | BGe | BLe => 3 | BAdd | BSub => 4 | BMul | BDiv => 5
+             end%nat.
+Proof. intros o. reflexivity. Qed.
+Print Assumptions the_levels_are.
+
+Theorem the_tokens_of_a_tree_are : forall p e,
+  fl p e = if Nat.ltb (lvl e) p then TLP :: body e +++ [TRP] else body e.
+Proof. exact fl_unfold. Qed.
+Print Assumptions the_tokens_of_a_tree_are.
+Theorem the_tokens_of_a_binary_tree_are : forall o a b,
+  body (WBin o a b) = if Nat.eqb (lvl_op o) 3 then fl 4 a +++ TOp o :: fl 4 b
+                      else fl (lvl_op o) a +++ TOp o :: fl (S (lvl_op o)) b.
+Proof. exact body_bin. Qed.
+Print Assumptions the_tokens_of_a_binary_tree_are.
+
+(** x o1 y o2 z for any two operators: the tighter one binds first, equal levels group to the left, two comparisons
+    in a row are rejected *)
+Theorem three_operands : forall o1 o2 x y z,
+  parse_tokens [TSym x; TOp o1; TSym y; TOp o2; TSym z] =
+  if Nat.eqb (lvl_op o1) 3 && Nat.eqb (lvl_op o2) 3 then None
+  else if Nat.leb (lvl_op o2) (lvl_op o1) then Some (WBin o2 (WBin o1 (WSym x) (WSym y)) (WSym z))
+  else Some (WBin o1 (WSym x) (WBin o2 (WSym y) (WSym z))).
+Proof. intros o1 o2 x y z. destruct o1, o2; reflexivity. Qed.
+Print Assumptions three_operands.
+
+(** the transformer on the fragment *)
+Theorem transformer_is : forall e,
+  to_wal e = match e with
+             | WNum z => VInt z | WSym s => VSym s None | WStr s => VStr s
+             | WNot a => PL [VOp ONot; to_wal a]
+             | WBin o a b => PL [VOp (bop_op o); to_wal a; to_wal b]
+             | WCall f args => PL ((match op_of_name f with Some o => VOp o | None => VSym f None end) :: map to_wal args)
+             end.
+Proof. intros e. destruct e; reflexivity. Qed.
+Print Assumptions transformer_is.
+
+Example expression_text_example :
+  wawk_expr "a - 1 - f(b, !c) * 2 >= -3 && x || y" =
+  XOk (to_wal (WBin BOr (WBin BAnd (WBin BGe (WBin BSub (WBin BSub (WSym "a") (WNum 1))
+                                                        (WBin BMul (WCall "f" [WSym "b"; WNot (WSym "c")]) (WNum 2)))
+                                              (WNum (-3))) (WSym "x")) (WSym "y"))).
+Proof. vm_compute. reflexivity. Qed.
+Print Assumptions expression_text_example.
